@@ -216,9 +216,11 @@ def validate_chunk(ctx, name, rows, sched_by_id, res_by_id, st):
             what = "the run ended although not every planned request was prepared and merged exactly once (or it never returned)"
         elif evname == "return":
             what = "the resolver returned although not every planned request was prepared and merged exactly once, or it returned an error"
-        key = "run:%s:%s" % (r.violated or "nonconformance", evname)
+        sc = sched_by_id.get(cid, {})
+        key = "%srun:%s:%s" % ("ghost:" if sc.get("ghost") else "", r.violated or "nonconformance", evname)
+        if sc.get("ghost"):
+            what += " [plan with a ghost request %s: a nested fetch whose fetch path selects no item]" % sc["ghost"]
         if st["reports"] < MAX_REPORTS:
-            sc = sched_by_id.get(cid, {})
             if ctx.violation(key, "%s; schedule %s of plan %s deps=%s, event #%d %s" % (
                     what, cid, show(sc["tree"]) if sc else "?", sc.get("deps"), line - start, json.dumps(ev)),
                     {"kind": sc.get("kind", "run"), "schedule": sc, "events": allrows[start:end], "result": res_by_id.get(cid),
@@ -295,7 +297,7 @@ def go_side(ctx, results, scheds, st, baseline=None, hand_built=True):
         g = groups.setdefault(r["grp"], r)
         if g is not r and (g["data"] != r["data"] or g["errors"] != r["errors"]):
             which = "data" if g["data"] != r["data"] else "errors (as multisets)"
-            report("run:order-dependent-%s%s" % (which.split()[0], ":ghost" if s.get("ghost") else ""), "two completion orders of the same plan %s give different %s: schedule %s -> %s ; schedule %s -> %s" % (
+            report("%srun:order-dependent-%s" % ("ghost:" if s.get("ghost") else "", which.split()[0]), "two completion orders of the same plan %s give different %s: schedule %s -> %s ; schedule %s -> %s" % (
                 plan, which, g["id"], g["raw"][:400], r["id"], r["raw"][:400]), r)
     return unreal
 
@@ -512,8 +514,11 @@ def run(ctx):
         cand = [f for f in sinks if any(g != f and g not in p["deps"][f - 1] for g in range(1, n + 1))]
         if cand:
             ghosts.append({"tree": p["tree"], "deps": p["deps"], "src": "tree", "fail": [], "probe": False, "ghost": [rng.choice(cand)]})
+    if quick:
+        # only plans without dependencies: the defect then shows as order-dependent data (python side); a dependent request
+        # that loses its input is rejected by TLC, and every rejected trace costs another TLC run (thorough only)
+        ghosts = [p for p in ghosts if not any(p["deps"])]
     rng.shuffle(ghosts)
-    ghosts = ghosts[:6 if quick else 10 ** 9]
     for i, p in enumerate(ghosts):
         p["grp"] = "G%04d" % i
     plans += ghosts
